@@ -142,6 +142,7 @@ type Exec struct {
 	immutNames map[string]bool
 	iterGhost  map[*ssa.Range]string
 	subAddrIDs map[string]int
+	allocHere  map[string]bool // ref symbols introduced by allocations of this activation
 	recBusy map[string]bool
 	exitHits map[string]int
 	inferN, inferQueries int
